@@ -20,9 +20,11 @@ TRACE = "T_Matching"
 ENUM = {
     "quick": [dict(module="MC_Matching", cfg="MC_Matching_quick.cfg", workers=12),
               dict(module="MC_Matching", cfg="MC_Matching_quick_boxes.cfg", workers=4),
+              dict(module="MC_Matching", cfg="MC_Matching_quick_degenerate.cfg", workers=8),
               dict(module="MC_Matching", cfg="MC_Matching_sim3.cfg", workers=4, simulate="num=300", depth=30)],
     # coverage (an action never taken = failure) on the small config only: TLC's interim coverage reports of a long run contain zeros
     "thorough": [dict(module="MC_Matching", cfg="MC_Matching_quick_boxes.cfg", workers=4, coverage=True),
+                 dict(module="MC_Matching", cfg="MC_Matching_quick_degenerate.cfg", workers=8),
                  dict(module="MC_Matching", cfg="MC_Matching_thorough.cfg", workers=16),
                  dict(module="MC_Matching", cfg="MC_Matching_thorough_n5.cfg", workers=16),
                  dict(module="MC_Matching", cfg="MC_Matching_thorough_boxes.cfg", workers=16),
@@ -31,13 +33,15 @@ ENUM = {
 POOL = 12
 CHUNK = 1500
 RULE = ("every pair of lists (lengths 0..2 each over the proper intervals of 0..3 quick / 0..4 thorough and over a box-and-interval "
-        "alphabet; n + m <= 5 with n, m <= 3 thorough; 3 x 3 sampled by tlc -simulate), order significant, run at three dyadic "
+        "alphabet and over an alphabet with zero-extent geometries (zero-length interval, TimeStamp with zero buffer, zero-duration "
+        "box); n + m <= 5 with n, m <= 3 thorough; 3 x 3 sampled by tlc -simulate), order significant, run at three dyadic "
         "units; plus random lists "
         "(0..4 geometries a side, all nine kinds, arbitrary doubles); non-trivial = both lists non-empty")
 TRUSTED_BASE = ["checks/c07.py (build lists, list(match_geometries(...)), compute_affinity of every pair, encode; "
                 "indices +1, None -> [])"]
-ASSUMPTIONS = ["lattice cases use zero buffers and proper TimeInterval / BoundingBox geometries: the exact rational IoU of "
-               "Affinity.tla is the affinity under every reading of C06",
+ASSUMPTIONS = ["lattice cases use zero buffers and TimeStamp / TimeInterval / BoundingBox geometries: the exact rational IoU of "
+               "Affinity.tla is the affinity under every reading of C06; a pair of zero-extent geometries (union 0) counts 0 as long as "
+               "compute_affinity itself returns 0 there, otherwise the observed matrix judges the run",
                "random cases: optimality is decided on the observed affinities floored to 2^-20 (tolerance min(n,m) * 1e-6)"]
 
 
@@ -72,8 +76,16 @@ def _random(case):
             if geometry_to_shapely(g).is_valid:
                 return g
         raise RuntimeError("no valid random geometry")
+    def flat(kind):                                  # a zero-extent geometry of a kind that is never buffered
+        t = rng.uniform(0.0, 4.0)
+        if kind == "BoundingBox":
+            return _mk(kind, [t, 1000.0, t, 3000.0])
+        return _mk("TimeInterval", [t, t])
     src = [one(k) for k in case["ks"]]
     tgt = [one(k) for k in case["kt"]]
+    for lst, kinds, flags in ((src, case["ks"], case["deg"][0]), (tgt, case["kt"], case["deg"][1])):
+        for i in flags:
+            lst[i - 1] = flat(kinds[i - 1])
     if case["dup"] and src and tgt:                  # identical geometries on both sides: ties and affinities of 1
         tgt[0] = src[-1]
     return {"runs": [_run(src, tgt, tb, fb)]}
@@ -89,10 +101,17 @@ def execute(case):
 def random_cases(rng, tier):
     n = 1500 if tier == "quick" else 15000
     for _ in range(n):
-        yield {"kind": "rnd", "seed": rng.randrange(1, 2**31 - 1),
-               "ks": [rng.choice(KINDS) for _ in range(rng.randint(0, 4))],
-               "kt": [rng.choice(KINDS) for _ in range(rng.randint(0, 4))],
-               "dup": rng.random() < 0.3}
+        ks = [rng.choice(KINDS) for _ in range(rng.randint(0, 4))]
+        kt = [rng.choice(KINDS) for _ in range(rng.randint(0, 4))]
+        deg = [[], []]
+        if rng.random() < 0.3:                       # zero-extent geometries (positions listed 1-based), often leading both lists
+            for side, kinds in enumerate((ks, kt)):
+                for i in range(len(kinds)):
+                    if (i == 0 and rng.random() < 0.8) or rng.random() < 0.15:
+                        kinds[i] = rng.choice(["TimeInterval", "BoundingBox"])
+                        deg[side].append(i + 1)
+        yield {"kind": "rnd", "seed": rng.randrange(1, 2**31 - 1), "ks": ks, "kt": kt,
+               "dup": rng.random() < 0.3 and not (deg[0] or deg[1]), "deg": deg}
 
 
 def nontrivial(o):
